@@ -28,10 +28,48 @@ def main_mjd(p):
     return 1 if bad else 0
 
 
+def main_methods(p):
+    """headers of containers derived from containers, on the real classes"""
+    from sigpyproc.block import FilterbankBlock
+    from sigpyproc.header import Header
+    from sigpyproc.timeseries import TimeSeries
+    bad = []
+    rng = np.random.default_rng(8)
+    with tempfile.TemporaryDirectory() as d:
+        hdr = Header.from_sigproc(write_set(d, np.zeros((16, 4), np.uint8), 8, [16], tsamp=0.002, tstart=58000.0, fch1=1500.0, foff=-50.0))
+    for n, factor in ((7, 2), (9, 3), (8, 4), (5, 5)):
+        ts = TimeSeries(rng.normal(size=n).astype(np.float32), hdr.new_header({"nchans": 1, "nsamples": n}))
+        o = ts.downsample(factor)
+        if abs(o.header.tsamp - 0.002 * factor) > 1e-15 or o.header.nsamples != n // factor or o.data.size != n // factor:
+            bad.append(f"TimeSeries.downsample(n={n}, factor={factor}): tsamp {o.header.tsamp} (expected {0.002 * factor}), nsamples {o.header.nsamples}, data {o.data.size}")
+    ts = TimeSeries(rng.normal(size=6).astype(np.float32), hdr.new_header({"nchans": 1, "nsamples": 6}))
+    o = ts.pad(3)
+    if o.header.nsamples != 9 or o.data.size != 9:
+        bad.append(f"TimeSeries.pad: nsamples {o.header.nsamples}, data {o.data.size}")
+    x = rng.integers(0, 50, (4, 16)).astype(np.float32)
+    blk = FilterbankBlock(x, hdr.new_header({"nsamples": 16}), dm=12.5)
+    t = blk.get_tim()
+    if t.header.dm != 12.5 or t.header.nchans != 1 or t.data.size != 16:
+        bad.append(f"get_tim of a block with dm=12.5: header dm {t.header.dm}, nchans {t.header.nchans}, {t.data.size} samples")
+    for valid in (False, True):
+        dd = FilterbankBlock(x, hdr.new_header({"nsamples": 16})).dedisperse(30.0, only_valid_samples=valid)
+        if dd.dm != 30.0 or dd.header.nsamples != dd.data.shape[1]:
+            bad.append(f"dedisperse(30, valid={valid}): block dm {dd.dm}, header nsamples {dd.header.nsamples} vs {dd.data.shape[1]}")
+        t = dd.get_tim()
+        if t.header.dm != 30.0:
+            bad.append(f"dedisperse(30, valid={valid}).get_tim(): header dm {t.header.dm}")
+    print("params:", json.dumps(p))
+    for b in bad[:4]:
+        print("MISMATCH:", b)
+    return 1 if bad else 0
+
+
 def main(p):
     """file transforms: the C07 driver already compares header fields (nbits, nchans, fch1, foff, tsamp, tstart)"""
     if p.get("kind") == "mjd":
         return main_mjd(p)
+    if p.get("kind") == "methods":
+        return main_methods(p)
     from . import c07
     q = dict(p)
     q.pop("check", None)
